@@ -1,7 +1,7 @@
 """C11 generators: memory configurations and access histories (deterministic streams; no Hypothesis state).
 
 A case is {"cfg": <abstract configuration, see c11_model.Model>, "ops": [op..], "sent_seed": int} with
-  op = ["st", addr, bits, value, variant] | ["ld", addr, bits, variant]
+  op = ["st", addr, bits, value, variant] | ["ld", addr, bits, variant] | ["rej", kind, a, b] (see gen_rej)
 variant: py  -> "b" (read_bytes/write_bytes) | "t" (read_byte/word/long, write_byte/word/long)
          rs  -> "d" (MemoryImage::load/store)
          rs-cpu -> "lmn" (MV [lmn],r / MV r,[lmn]) | "imem" (MV (n),r / MV r,(n) under PRE 0x32)
@@ -36,6 +36,8 @@ def _overlaps(lo: int, hi: int, taken: List[Tuple[int, int]]) -> bool:
     return any(lo <= b and hi >= a for a, b in taken)
 
 
+INT_OVL_SIZES = (1, 2, 3, 16, 0x40, 0x100)
+INT_OVL_ANCHORS = (0x00, 0x10, 0x40, 0x80, 0xE0, 0xEC, 0xEE, 0xF3, 0xF8, 0xFD)
 OVERLAP_SIZES = (2, 16, 256, 4096, 0x8000, 0x10000, 0x40000)
 # anchors that put an overlay across / inside / exactly on another overlay-type window (card slot, ROM image)
 OVERLAP_ANCHORS = (0x3FFF0, 0x40000, 0x40000, 0x41FF0, 0x42000, 0x47FFF, 0x48000, 0x4FFF0, 0x4FFFF, 0x30000,
@@ -150,13 +152,85 @@ def gen_cfg(st: Stream, kind: str) -> Dict[str, Any]:
         ovl.append({"kind": st.choice(("ram", "rom")), "start": lo, "size": size, "k": 8 + st.below(3)})
         if not overlap:
             soft.append((lo, hi))
+    # overlays registered INSIDE the 256-byte internal window (1 configuration in 5): whether the internal memory
+    # consults the overlay table is undocumented (model: "int-ovlp" cells), but every internal byte they do not
+    # cover -- the key-port bytes 0xF0-0xF2 included -- must stay plain internal RAM.  Python: only next to a ROM
+    # image (without one the last 256 external bytes alias the internal memory: known finding, kept apart).
+    if st.chance(1, 5) and (not py or cfg.get("rom") is not None):
+        for _ in range(st.choice((1, 1, 2))):
+            r = st.below(24)
+            if r == 0 and kind == "py":
+                size = st.choice((1, 2))                       # inside the key-port block, not covering all of it
+                start = INT + 0xF0 + st.below(4 - size)
+            elif r <= 2:
+                size, start = 3, INT + 0xF0                    # exactly the key-port block
+            elif r <= 12:
+                size = st.choice(INT_OVL_SIZES)
+                start = INT + st.choice(INT_OVL_ANCHORS)
+            else:
+                size = st.choice(INT_OVL_SIZES)
+                start = INT + st.below(0x100 - size + 1)
+            lo, hi = start, start + size - 1
+            if hi > INT + 0xFF:
+                continue
+            if kind in ("py-emu", "rs-cpu") and hi >= INT + 0xF0:
+                continue  # device registers once the peripherals are attached (never value-checked)
+            ovl.append({"kind": st.choice(("ram", "rom")), "start": lo, "size": size, "k": 8 + st.below(3)})
     if ovl:
         cfg["ovl"] = ovl
     # registration order of the overlays relative to the card-slot calls (and to each other) is generated too
     for i in range(len(ovl)):
         seq.insert(st.below(len(seq) + 1), ["ovl", i])
+    # an overlay taken out again (remove_overlay by name) -- anywhere in the sequence; before its registration it
+    # is the removal of an unknown name
+    if ovl and st.chance(1, 4):
+        for _ in range(st.choice((1, 1, 2))):
+            # half of them at the very end: nothing re-establishes the table before the first access
+            seq.insert(len(seq) if st.chance(1, 2) else st.below(len(seq) + 1), ["rm", st.below(len(ovl))])
+    # rejected / empty configuration calls anywhere in the sequence (they must leave no trace)
+    for _ in range(st.choice((0, 0, 1, 1, 2))):
+        seq.insert(st.below(len(seq) + 1), gen_rej(st, kind, ovl))
     cfg["seq"] = seq
     return cfg
+
+
+BAD_CARD_SIZES = (1, 16, 1000, 4096, 8191, 8193, 12288, 16383, 24576, 32769, 49152, 65535, 65537, 131072)
+REJ_KINDS_RS = ("card-empty", "card-badsize", "card-badsize", "ram-ovl-empty", "rom-ovl-empty", "remove-unknown",
+                "copy-ext-badlen", "slice-out-of-range")
+REJ_KINDS_PY = ("card-badsize", "card-badsize", "card-badsize", "ram-ovl-empty", "rom-ovl-empty", "remove-unknown")
+
+
+def gen_rej(st: Stream, kind: str, ovl: List[Dict[str, Any]]) -> List[Any]:
+    """A configuration call that the implementation refuses (Err / exception) or that names no location:
+         ["rej", kind, a, b]
+       card-empty        Rust load_memory_card(&[])                                            -> Err
+       card-badsize      load_memory_card with an unsupported size a (Python: card_size=a, b = data length and
+                         bit 0 of b = writable)                                               -> Err / ValueError
+       ram-ovl-empty     add_ram_overlay(a, 0, "z") / add_ram(a, 0, "z")       zero bytes: covers no location
+       rom-ovl-empty     add_rom_overlay(a, &[], "z") / add_rom(a, b"", "z")   zero bytes: covers no location
+       remove-unknown    remove_overlay("no-such-overlay")
+       copy-ext-badlen   Rust copy_external_from(a bytes != 1 MiB)                             -> Err
+       slice-out-of-range Rust write_external_slice / CoreRuntime::load_rom(start a >= 1 MiB, b bytes): outside
+                         the backing store
+    """
+    py = kind.startswith("py")
+    k = st.choice(REJ_KINDS_PY if py else REJ_KINDS_RS)
+    a = b = 0
+    if k == "card-badsize":
+        a = st.choice(BAD_CARD_SIZES + ((0,) if py else ()))
+        b = st.choice((0, 16, 8192, 65536)) + st.below(2) if py else 0
+    elif k in ("ram-ovl-empty", "rom-ovl-empty"):
+        starts = [0, M.CARD_LO, M.CARD_LO + st.below(0x10000), M.ROM_LO, M.MIRROR_BASE, st.below(0x100000)]
+        starts += [o["start"] for o in ovl if o["start"] < INT]
+        if not py:
+            starts += [INT, INT + 0xF0, INT + st.below(0x100)]
+        a = st.choice(starts)
+    elif k == "copy-ext-badlen":
+        a = st.choice((0, 1, 0x100, 0xFFFFF, 0x100001, 0x100100))
+    elif k == "slice-out-of-range":
+        a = st.choice((0x100000, 0x100040, 0x1000F0, 0x140000, 0x1000000))
+        b = st.choice((1, 16, 0x100))
+    return ["rej", k, a, b]
 
 
 def _edges(m: M.Model) -> List[int]:
@@ -236,8 +310,15 @@ def gen_ops(st: Stream, m: M.Model, profile: str, nops: int) -> Tuple[List[List[
         return a & 0xFFFFFFFF, lab
 
     tries = 0
+    ovl = m.cfg.get("ovl") or []
     while len(ops) < nops and tries < nops * 8:
         tries += 1
+        if st.chance(1, 25):
+            # a rejected / empty configuration call between two accesses: must leave no trace
+            rj = gen_rej(st, m.kind, ovl)
+            ops.append(rj)
+            labels.append("rej:" + rj[1])
+            continue
         bits = st.choice((8, 8, 16, 24))
         n = bits // 8
         store = st.chance(11, 20)
@@ -267,6 +348,10 @@ def gen_ops(st: Stream, m: M.Model, profile: str, nops: int) -> Tuple[List[List[
             continue  # pure device accesses: kept only as "must not disturb plain memory" stimuli
         if store:
             value = st.u32() & ((1 << bits) - 1)
+            if st.chance(1, 8):
+                # landmark values: all-zero / all-one bytes, a single zero or 0xFF byte among others, sign bits
+                value = st.choice((0, (1 << bits) - 1, 1 << (bits - 1), value & ~0xFF, value | 0xFF,
+                                   value & 0xFF, 0xFF << (bits - 8), 1, 0x010203 & ((1 << bits) - 1)))
             if cpu and bits == 24:
                 value &= 0xFFFFF
             ops.append(["st", addr, bits, value, variant])
